@@ -119,6 +119,10 @@ def scenarios(tier, seed):
         w = S("Maize", "SandyLoam", seed=7 + yrs, plant_md=(5, 1), year=2000, seasons=yrs + 1, off_season=off)
         w["end"] = f"{2000 + yrs}/05/01"
         ends.append(w)
+    for yrs, off in ((2, False), (2, True)):          # ... and one day after a planting day (the last season has exactly one day)
+        w = S("Maize", "SandyLoam", seed=17 + yrs, plant_md=(5, 1), year=2000, seasons=yrs + 1, off_season=off)
+        w["end"] = f"{2000 + yrs}/05/02"
+        ends.append(w)
     w = S("TomatoGDD", "Loam", seed=12, plant_md=(4, 15), year=2000, seasons=3, regime="hot"); w["end"] = "2002/04/15"; ends.append(w)
     w = S("Wheat", "Loam", seed=13, plant_md=(10, 1), year=2000, seasons=3); w["end"] = "2002/10/01"; ends.append(w)
     # derived dates at the leap day: planting days for which (planting + days to maturity + 30 days) - the default latest harvest date - falls on
@@ -141,7 +145,18 @@ def scenarios(tier, seed):
     for y in ((1980, 1990) if tier != "thorough" else (1979, 1980, 1983, 1985, 1988, 1990, 1993, 1996)):
         for soil in (("Clay",) if tier != "thorough" else ("Clay", "SiltClay", "SandyLoam")):
             dryem.append(L.builtin_scenario("Wheat", y, plant="10/01", end=f"{y + 2}/09/30", soil=soil, iwc={"value": ["WP"]}))
-    scs += sp + [b, c, d, e, f, g, h, i] + ends + leap + unsorted + dryem
+    # surface features COMBINED: mulches on a bunded field with water standing between the bunds (initial bund water; storm on a slowly permeable soil),
+    # in the season and in the fallow period
+    combo = [S("PaddyRice", "Paddy", seed=60, regime="monsoon", field={"mulches": True, "mulch_pct": 60, "f_mulch": 0.5, "bunds": True, "z_bund": 0.1, "bund_water": 50},
+               iwc={"value": ["FC", "FC"], "depth_layer": [1, 2]}),
+             S("Wheat", "Clay", seed=61, field={"mulches": True, "mulch_pct": 80, "f_mulch": 0.7, "bunds": True, "z_bund": 0.15}, events=L.storm_events(2001, (4, 20), (90, 140, 60))),
+             S("Barley", "SandyClay", seed=62, off_season=True, lead=30, fallow={"mulches": True, "mulch_pct": 50, "f_mulch": 0.5, "bunds": True, "z_bund": 0.08, "bund_water": 20},
+               events=L.storm_events(2001, (3, 25), (80, 120)))]
+    # very deep rooting on the two-horizon built-in soils (the profile has to be deepened far beyond the described horizons), wet enough for the
+    # roots to get there
+    deep = [S("AlfalfaGDD", so, seed=70 + k, regime="hot", irr={"method": 1, "kw": {"SMT": [80] * 4}}, iwc={"value": ["FC", "FC"], "depth_layer": [1, 2]}) for k, so in enumerate(("Paddy", "ac_TunisLocal"))]
+    deep += [S("Maize", so, seed=72 + k, crop_kw={"Zmax": 2.8}, irr={"method": 1, "kw": {"SMT": [80] * 4}}, iwc={"value": ["FC", "FC"], "depth_layer": [1, 2]}) for k, so in enumerate(("Paddy", "ac_TunisLocal"))]
+    scs += sp + [b, c, d, e, f, g, h, i] + ends + leap + unsorted + dryem + combo + [x for x in deep if L.deepenable(x)]
     # the pairwise covering array over the configuration dimensions (every pair of option levels occurs in some run)
     scs += L.pairwise_cases(seed)
     return scs
